@@ -68,7 +68,9 @@ class HashMap:
         elif isinstance(key, str):
             key = int(key, 2)
         elif isinstance(key, Address):
-            key = Builder().store_address(key).end_cell().begin_parse().load_uint(267)
+            key_bits = Builder().store_address(key).end_cell().begin_parse()
+            # an address with an anycast prefix takes more than 267 bits: all of them are the key (set_int_key refuses what does not fit)
+            key = key_bits.load_uint(key_bits.remaining_bits)
         if isinstance(key, int):
             return self.set_int_key(key, value)
         else:
@@ -94,6 +96,9 @@ class HashMap:
         if not self.value_serializer:
             self.value_serializer = lambda src, dest: dest.store_cell(src)
         if len(self.map):
+            for key in self.map:  # the map may have been given to the constructor or edited directly
+                if not isinstance(key, int) or key < 0 or key.bit_length() > self.size:
+                    raise DictError(f'key {key!r} does not fit {self.size} bits')
             return serialize_dict(self.map, self.size, self.value_serializer).end_cell()
         else:
             return None
